@@ -253,6 +253,7 @@ def run_grid(ctx, codes, case_base, full=True, rng=None, max_outlets=None):
                 list(itertools.combinations(others, 2))
         for inl in isets:
             case = dict(case_base, outlet=int(o), inlets=list(inl))
+            ctx.evaluated()
             ref = check_area(ctx, cat, model, o, list(inl), case, cyc=cyc)
             if ref is not None and len(ref) >= 2:
                 ctx.nontrivial(codes, o, inl)
@@ -261,6 +262,7 @@ def run_grid(ctx, codes, case_base, full=True, rng=None, max_outlets=None):
     starts = range(n) if not max_outlets else \
         [int(s) for s in rng.choice(n, size=min(n, max_outlets), replace=False)]
     for s in starts:
+        ctx.evaluated()
         check_river(ctx, fd, model, s, dict(case_base, river_start=int(s)), cyc)
 
 
